@@ -6,7 +6,7 @@ use std::alloc::{GlobalAlloc, Layout, System};
 use std::cell::RefCell;
 use std::collections::{BTreeMap, BTreeSet};
 use std::panic::{AssertUnwindSafe, catch_unwind};
-use std::sync::atomic::{AtomicBool, AtomicU64, AtomicUsize, Ordering};
+use std::sync::atomic::{AtomicBool, AtomicI64, AtomicU64, AtomicUsize, Ordering};
 use std::sync::{Mutex, OnceLock};
 use std::time::{Duration, Instant};
 
@@ -14,8 +14,8 @@ use std::time::{Duration, Instant};
 
 pub struct CountingAlloc;
 
-static LIVE: AtomicUsize = AtomicUsize::new(0);
-static PEAK: AtomicUsize = AtomicUsize::new(0);
+static LIVE: AtomicI64 = AtomicI64::new(0);
+static PEAK: AtomicI64 = AtomicI64::new(0);
 /// largest single request seen since last reset
 static MAX_REQ: AtomicUsize = AtomicUsize::new(0);
 /// refuse single requests above this (returns null -> abort): keeps the sandbox alive
@@ -44,7 +44,7 @@ unsafe impl GlobalAlloc for CountingAlloc {
     }
     unsafe fn dealloc(&self, p: *mut u8, l: Layout) {
         if COUNTING.load(Ordering::Relaxed) {
-            LIVE.fetch_sub(l.size(), Ordering::Relaxed);
+            LIVE.fetch_sub(l.size() as i64, Ordering::Relaxed);
         }
         unsafe { System.dealloc(p, l) }
     }
@@ -58,7 +58,7 @@ unsafe impl GlobalAlloc for CountingAlloc {
                 note_alloc(new - l.size());
                 MAX_REQ.fetch_max(new, Ordering::Relaxed);
             } else if COUNTING.load(Ordering::Relaxed) {
-                LIVE.fetch_sub(l.size() - new, Ordering::Relaxed);
+                LIVE.fetch_sub((l.size() - new) as i64, Ordering::Relaxed);
             }
         }
         q
@@ -73,7 +73,7 @@ fn note_alloc(n: usize) {
     if !COUNTING.load(Ordering::Relaxed) {
         return;
     }
-    let live = LIVE.fetch_add(n, Ordering::Relaxed) + n;
+    let live = LIVE.fetch_add(n as i64, Ordering::Relaxed) + n as i64;
     PEAK.fetch_max(live, Ordering::Relaxed);
     MAX_REQ.fetch_max(n, Ordering::Relaxed);
 }
@@ -85,11 +85,19 @@ pub mod mem {
     pub fn enable_counting() {
         COUNTING.store(true, Ordering::SeqCst);
     }
-    pub fn live() -> usize {
+    /// live heap bytes since counting was switched on (can be slightly negative: memory allocated
+    /// before the switch and freed after it)
+    pub fn live_signed() -> i64 {
         LIVE.load(Ordering::Relaxed)
     }
-    pub fn peak() -> usize {
+    pub fn peak_signed() -> i64 {
         PEAK.load(Ordering::Relaxed)
+    }
+    pub fn live() -> usize {
+        LIVE.load(Ordering::Relaxed).max(0) as usize
+    }
+    pub fn peak() -> usize {
+        PEAK.load(Ordering::Relaxed).max(0) as usize
     }
     pub fn reset_peak() {
         PEAK.store(LIVE.load(Ordering::Relaxed), Ordering::Relaxed);
